@@ -449,9 +449,14 @@ func (d *Driver) Check() int {
 
 	// determinism sample: re-execute a few runs under other GOMAXPROCS and compare logs
 	detChecked, detBad := d.determinismSample(e, n, done)
-	if detBad != "" {
+	if detBad != "" && len(a.found) == 0 {
 		fmt.Fprintln(os.Stderr, "verif: nondeterminism in the simulator (harness defect, no verdict):", detBad)
 		return 2
+	}
+	if detBad != "" {
+		// Violations were found as well. Each is reported only if it reproduces in fresh processes
+		// (below), which is what makes a report trustworthy; the disagreement is printed as a warning.
+		fmt.Fprintln(os.Stderr, "verif: warning: some runs were not repeatable across GOMAXPROCS settings:", detBad)
 	}
 
 	// results that must agree across runs (determinism across histories)
@@ -566,6 +571,10 @@ func (d *Driver) Check() int {
 		fmt.Fprintf(d.Out, "  signature: %s (seen in %d of %d runs, first in run %d)\n  %s\n", sig, f.count, done, f.firstIdx, strings.ReplaceAll(detail, "\n", "\n  "))
 	}
 
+	if detBad != "" && nviol == 0 && exit == 0 {
+		fmt.Fprintln(os.Stderr, "verif: nondeterminism in the simulator and no reproducible violation: no verdict")
+		return 2
+	}
 	if unconfirmed > 0 && nviol == 0 && exit == 0 {
 		fmt.Fprintln(os.Stderr, "verif: violations were seen during exploration but none reproduced on replay: harness trouble, no verdict")
 		return 2
